@@ -397,6 +397,13 @@ def mbstowcs_s (cfg : Cfg) (a : SArgs) : Out :=
       let o := tailW cfg a r 0 (fun _ => let q := Libc.mbstowcs cfg.loc true mem n; (q.ret, q.eilseq))
       { o with src := some 0, st := [] }
 
+/-- mbsrtowcs_s' second libc call `mbsrtowcs(NULL, srcp, len - 1, &orig_ps)`: from the UPDATED `*srcp`, with the saved
+entry state (`len - 1` is ignored by libc when dst is NULL) -/
+def mbsrRequery (cfg : Cfg) (a : SArgs) (mem : List Nat) (n : Nat) (r : Libc.LR) : Unit → Nat × Bool := fun _ =>
+  match r.src with
+  | none => (0, false)   -- not reached: r.ret > RSIZE_MAX_WSTR only for (size_t)-1, and then *srcp is not NULL
+  | some k => let q := Libc.mbsrtowcs cfg.loc true (mem.drop k) (n - 1) a.ps; (q.ret, q.eilseq)
+
 def mbsrtowcs_s (cfg : Cfg) (a : SArgs) : Out :=
   if a.retvalNull then { ret := ESNULLP, dest := mkD a, ev := [ESNULLP], st := a.ps } else
   if a.psNull then { ret := ESNULLP, retval := some 0, dest := mkD a, ev := [ESNULLP] } else
@@ -414,11 +421,7 @@ def mbsrtowcs_s (cfg : Cfg) (a : SArgs) : Out :=
       if a.alias then { ret := ESOVRLP, retval := some 0, dest := mkD a, st := a.ps } else
       let n := libcLen cfg a
       let r := Libc.mbsrtowcs cfg.loc a.dest.isNone mem n a.ps
-      -- second call: from the updated *srcp, with the saved entry state, len - 1 (ignored by libc when dst is NULL)
-      tailW cfg a r a.errno0 (fun _ =>
-        match r.src with
-        | none => (0, false)   -- not reached: r.ret > RSIZE_MAX_WSTR only for (size_t)-1, and then *srcp is not NULL
-        | some k => let q := Libc.mbsrtowcs cfg.loc true (mem.drop k) (n - 1) a.ps; (q.ret, q.eilseq))
+      tailW cfg a r a.errno0 (mbsrRequery cfg a mem n r)
 
 /-- entry checks shared by wcstombs_s and wcsrtombs_s (byte destination) -/
 def entryB (cfg : Cfg) (a : SArgs) (d : D) : Option Out :=
